@@ -50,6 +50,12 @@ def one(job):
         # (a later segment that starts at an earlier segment's sequence number and covers it and its successor);
         # QUIC connections get reordered 1-RTT datagrams
         kw = {"resched": 1.0, "repack": 0.5, "quic_features": [{"reorder": True} for _ in range(nquic)]}
+    args = []
+    if mode == "meta":
+        # the same question with metadata export on: handshake material that an earlier cut exported stays exported (QUIC connections
+        # go through a Retry: what was exported before the Retry must still be there after it)
+        args = ["-a"]
+        kw = {"quic_features": [{"retry": True} for _ in range(nquic)]}
     combos = [e2e.random_combo(rng) for _ in range(ntls)]
     if mode == "reuse13" and combos:
         # the connection whose 4-tuple is re-used is TLS 1.3 without the compatibility CCS: nothing but the second
@@ -104,7 +110,7 @@ def one(job):
             items.append(it)
         mx.items = items
         kl = None
-    full = tool.run(mx.capture(), kl)
+    full = tool.run(mx.capture(), kl, args)
     desc = mx.describe()
     if full.crashed:
         return [("full", full.signature(), None)], desc, len(mx.items), 0
@@ -115,7 +121,7 @@ def one(job):
     fails, inside = [], 0
     for n in range(0, len(mx.items) + 1):
         cap = wire.pcapng(mx.items[:n])
-        r = tool.run(cap, kl)
+        r = tool.run(cap, kl, args)
         if r.crashed:
             fails.append((n, r.signature(), cap.hex()))
             continue
@@ -138,6 +144,7 @@ def explore(ctx, scale=1):
     n = ctx.n(18, 300) * scale
     jobs = [(rng.getrandbits(48), *([(1, 0), (0, 1), (2, 0), (1, 1)][i % 4] if not (i % 6 == 4 and (i // 6) % 2 == 0) else [(2, 0), (1, 1)][(i // 12) % 2]), ["plain", "clock", "reuse13" if (i // 6) % 2 == 0 else "reuse", "retransmit", "dsb" if (i // 6) % 2 == 0 else "clock", "retransmit"][i % 6])
             for i in range(n)]
+    jobs += [(rng.getrandbits(48), *[(0, 1), (1, 1), (0, 2), (2, 0)][i % 4], "meta") for i in range(ctx.n(4, 40) * scale)]
     results = tool.pmap(one, jobs, procs=16 if ctx.thorough() else 8)
     o = ctx.oracle.setdefault("every-cut", {"runs": 0, "violations": 0})
     for job, res in zip(jobs, results):
